@@ -87,7 +87,7 @@ SPEC = {
                  "C13_withelements_active", "C13_withelements_alternates", "C13_withelements_closed_after_teardown",
                  "C13_withelements_in_protocol", "C13_skeleton_list_inner_insertValue", "C13_skeleton_set_WithElements",
                  "C13_skeleton_set_Decode", "C13_skeleton_event_WasTriggered", "C13_skeleton_variable_LogUpdates",
-                 "C13_event_trace_ok", "C13_directed_set_logs_ok", "C13_decode_is_not_a_writer_witness"],
+                 "C13_event_trace_ok", "C13_directed_set_logs_ok", "C13_decode_is_not_a_writer_witness", "C13_withvalue_in_protocol"],
     "trusted_base": [
         "hand-written protocol model Hive/Model/Reactive.lean (+ ReactiveInst.lean) of ds/reactive variable_impl.go / set_impl.go / "
         "event_impl.go / utils.go, tied by (a) regenerated synchronisation skeletons stated as theorems, (b) differential execution of "
@@ -101,7 +101,9 @@ SPEC = {
         "callback bodies are opaque (enter/exit events): a callback that writes to or unsubscribes from its own object is NOT modelled (it self-deadlocks in the code)",
         "the value mutex is an RWMutex in the code; readers (Get/Read/ToSlice) are not threads of the model, Get() is read at quiescence",
         "update ids are unbounded naturals, justified by uniqueID = uint64 (obligation C13_skeleton_type_uniqueID)",
-        "a DerivedSet's subscribers are covered (inheritMutations = one more writer under the same embedded set.mutex); what a derived object computes (DerivedVariable, DerivedSet contents, WithValue, OnUpdateOnce, OnUpdateWithContext) is C14's, not modelled here",
+        "a DerivedSet's subscribers are covered (inheritMutations = one more writer under the same embedded set.mutex); what a derived object computes (DerivedVariable, DerivedSet contents) is C14's, not modelled here",
+        "the subscription variants (OnUpdateOnce, OnUpdateWithContext, WithValue / WithNonEmptyValue, WithElements, LogUpdates) are sequential machines over the note stream of one inner OnUpdate subscription; that the stream is consumed sequentially is C13_callbacks_exclusive, the composition itself is tied by the differential (newvarx / newsetx cases, osub/wsub/csub/esub logs), not proved",
+        "Set.Decode (merge without notification) is outside the statement's writers; pinned by C13_skeleton_set_Decode, witness C13_decode_is_not_a_writer_witness",
         "Set contents are lists of naturals compared as sets; ds.Set's iteration order is not modelled",
     ],
     "manifest": {
@@ -112,10 +114,15 @@ SPEC = {
                 "Appendix F) give, for every schedule: C13_chain, C13_last_is_final, C13_set_fold (+ sequential C13_set_fold_step), "
                 "C13_callbacks_exclusive, C13_none_after_unsubscribe_returned, C13_exactly_once_in_order, C13_every_change_delivered, and "
                 "C13_var_trace_ok / C13_set_trace_ok: the decidable trace predicates drv_c13 evaluates on logs recorded from the real code "
-                "hold for every subscription of the model. Tie on every run: regenerated lock/call skeletons of 14 functions as theorems; "
+                "hold for every subscription of the model; C13_set_notes_true_difference (every note of a Set subscription is a true difference, at every prefix); "
+                "C13_repeated_unsubscribe_noop (repeated / late calls of an unsubscribe function change nothing); the subscription variants OnUpdateOnce / "
+                "WithValue / OnUpdateWithContext / WithElements as machines over the note stream with C13_once_* / C13_withvalue_* / C13_context_torn_down / "
+                "C13_withelements_* theorems. Tie on every run: regenerated lock/call skeletons and type facts of ~60 functions / types as theorems; "
                 "sequential differential (Set Add/AddAll/Delete/DeleteAll/Apply/Compute/Replace diffs and subscriber folds over a 5-element "
-                "universe, Variable Set/Compute/DefaultTo, Event Trigger, OnUpdate with/without initial trigger, unsubscribe); stress with 4-8 "
-                "goroutines per round, per-subscription logs stamped by an atomic logical clock, judged by drv_c13 and by an independent Go oracle.",
+                "universe, Variable Set/Compute/DefaultTo, Event Trigger, OnUpdate with/without initial trigger, unsubscribe, every subscription variant incl. "
+                "WithElements and LogUpdates, the update-id counter); directed schedules (gated callbacks, goroutine statuses compared with the model's step function); "
+                "stress with 4-8 goroutines per round plus crowd / walk / twin / barrier rounds (concurrent unsubscriptions of neighbours while a writer snapshots), "
+                "per-subscription logs stamped by an atomic logical clock, judged by drv_c13 and by an independent Go oracle.",
         "note": "Trusted: Lean kernel; the hand-written model (atomicity = lock-protected sections, opaque non-reentrant callbacks); the Go scheduler only "
                 "samples schedules in the tie. Fixed defect: reactive Set.Replace reported all-new as added and all-old as deleted (036bec1).",
         "technique": "Lean 4 inductive invariants over an interleaving model + regenerated skeleton obligations + differential and trace-predicate correspondence",
